@@ -222,28 +222,28 @@ open Mouette.Lemmas.C15RunSource Mouette.SurfSource
 
 /-- **resets of the translated `run`**: it starts from `clear()` and opens both `feature` attributes cleared, so neither what the
 attributes held before nor the detector's earlier containers reach the result (history independence, read from the body) -/
-theorem source_run_resets (env : FeatEnv) (v2e : Nat → List Nat) (ob : Bool) (fv0 fe0 : Option BoolMap) :
-    run env v2e ob fv0 fe0 = run env v2e ob none none := run_history_free env v2e ob fv0 fe0
+theorem source_run_resets (env : FeatEnv) (v2e : Nat → List Nat) (ob : Bool) (fv0 fe0 : Option BoolMap) (fc : Bool) (ce : CornerEnv) (tp : Rat) (od : Nat) (c0 cm : IntMap) :
+    run env v2e ob fv0 fe0 fc ce tp od c0 cm = run env v2e ob none none fc ce tp od c0 cm := run_history_free env v2e ob fv0 fe0 fc ce tp od c0 cm
 
 /-- **`feature_edges` of the translated `run` is exact**: a set (no repetition) whose members are the border edges, the interior
 edges with `cos < 1/2` and the declared hard interior edges with `cos < 4/5` (only the border with `only_border`) -/
 theorem source_run_feature_edges_exact (env : FeatEnv) (es : List EdgeInfo) (hm : EnvMatches env es) (v2e : Nat → List Nat)
-    (ob : Bool) (fv0 fe0 : Option BoolMap) :
-    (run env v2e ob fv0 fe0).2.1.Nodup ∧
-    ∀ e, e ∈ (run env v2e ob fv0 fe0).2.1 ↔ ∃ x, es[e]? = some x ∧
+    (ob : Bool) (fv0 fe0 : Option BoolMap) (fc : Bool) (ce : CornerEnv) (tp : Rat) (od : Nat) (c0 cm : IntMap) :
+    (run env v2e ob fv0 fe0 fc ce tp od c0 cm).2.1.Nodup ∧
+    ∀ e, e ∈ (run env v2e ob fv0 fe0 fc ce tp od c0 cm).2.1 ↔ ∃ x, es[e]? = some x ∧
       (x.border = true ∨
        (ob = false ∧ interior x = true ∧ cosLt x.d x.q (1/2) = true) ∨
        (ob = false ∧ x.hard = true ∧ interior x = true ∧ cosLt x.d x.q (4/5) = true ∧ x.border = false)) := by
-  obtain ⟨h1, h2, _, _⟩ := run_fe_fv env v2e ob fv0 fe0
+  obtain ⟨h1, h2, _, _⟩ := run_fe_fv env v2e ob fv0 fe0 fc ce tp od c0 cm
   refine ⟨h2, fun e => ?_⟩
   rw [h1]; exact source_feature_set_exact env es hm ob e
 
 /-- **`feature_vertices`** = the end points of the feature edges, each once -/
-theorem source_run_feature_vertices_exact (env : FeatEnv) (v2e : Nat → List Nat) (ob : Bool) (fv0 fe0 : Option BoolMap) :
-    (run env v2e ob fv0 fe0).1.Nodup ∧
-    ∀ v, v ∈ (run env v2e ob fv0 fe0).1 ↔
-      ∃ e ∈ (run env v2e ob fv0 fe0).2.1, v = (env.edge e).1 ∨ v = (env.edge e).2 := by
-  obtain ⟨h1, _, h3, h4⟩ := run_fe_fv env v2e ob fv0 fe0
+theorem source_run_feature_vertices_exact (env : FeatEnv) (v2e : Nat → List Nat) (ob : Bool) (fv0 fe0 : Option BoolMap) (fc : Bool) (ce : CornerEnv) (tp : Rat) (od : Nat) (c0 cm : IntMap) :
+    (run env v2e ob fv0 fe0 fc ce tp od c0 cm).1.Nodup ∧
+    ∀ v, v ∈ (run env v2e ob fv0 fe0 fc ce tp od c0 cm).1 ↔
+      ∃ e ∈ (run env v2e ob fv0 fe0 fc ce tp od c0 cm).2.1, v = (env.edge e).1 ∨ v = (env.edge e).2 := by
+  obtain ⟨h1, _, h3, h4⟩ := run_fe_fv env v2e ob fv0 fe0 fc ce tp od c0 cm
   refine ⟨h4, fun v => ?_⟩
   rw [h3]
   constructor <;> rintro ⟨e, he, h⟩
@@ -253,35 +253,56 @@ theorem source_run_feature_vertices_exact (env : FeatEnv) (v2e : Nat → List Na
 /-- **`feature_degrees`**: the translated loop is the model's `degrees` on `feature_edges` (so `feature_degree_spec` applies:
 the degree of `v` is the number of feature-edge ends at `v`) -/
 theorem source_run_degrees_eq_model (env : FeatEnv) (es : List EdgeInfo) (hm : EnvMatches env es) (v2e : Nat → List Nat)
-    (ob : Bool) (fv0 fe0 : Option BoolMap) :
-    (run env v2e ob fv0 fe0).2.2.1 = degrees es (run env v2e ob fv0 fe0).2.1 := by
+    (ob : Bool) (fv0 fe0 : Option BoolMap) (fc : Bool) (ce : CornerEnv) (tp : Rat) (od : Nat) (c0 cm : IntMap) :
+    (run env v2e ob fv0 fe0 fc ce tp od c0 cm).2.2.1 = degrees es (run env v2e ob fv0 fe0 fc ce tp od c0 cm).2.1 := by
   rw [run_deg]
   unfold degrees
   apply Mouette.Lemmas.C15FeatSource.foldl_congr_mem
   intro d e he
-  obtain ⟨x, hx, _⟩ := ((source_run_feature_edges_exact env es hm v2e ob fv0 fe0).2 e).mp he
+  obtain ⟨x, hx, _⟩ := ((source_run_feature_edges_exact env es hm v2e ob fv0 fe0 fc ce tp od c0 cm).2 e).mp he
   simp only [degStep, hx, hm.edge e x hx]
 
 /-- **`local_feat_edges`**: for a feature vertex `v`, the positions in `vertex_to_edges(v)` of the feature edges (the model's
 `localFeat`); no entry for the other vertices -/
-theorem source_run_local_feat_exact (env : FeatEnv) (v2e : Nat → List Nat) (ob : Bool) (fv0 fe0 : Option BoolMap) (v : Nat) :
-    locGet (run env v2e ob fv0 fe0).2.2.2.1 v =
-      if v ∈ (run env v2e ob fv0 fe0).1 then some (localFeat (run env v2e ob fv0 fe0).2.2.2.2.2 (v2e v)) else none := by
-  rw [run_featE]; exact run_loc env v2e ob fv0 fe0 v
+theorem source_run_local_feat_exact (env : FeatEnv) (v2e : Nat → List Nat) (ob : Bool) (fv0 fe0 : Option BoolMap) (fc : Bool) (ce : CornerEnv) (tp : Rat) (od : Nat) (c0 cm : IntMap) (v : Nat) :
+    locGet (run env v2e ob fv0 fe0 fc ce tp od c0 cm).2.2.2.1 v =
+      if v ∈ (run env v2e ob fv0 fe0 fc ce tp od c0 cm).1 then some (localFeat (run env v2e ob fv0 fe0 fc ce tp od c0 cm).2.2.2.2.2.1 (v2e v)) else none := by
+  rw [run_featE]; exact run_loc env v2e ob fv0 fe0 fc ce tp od c0 cm v
 
 /-- the two mesh attributes `feature` at the end: the edge one holds the flags of the three passes started from empty, the vertex
 one flags exactly the feature vertices -/
-theorem source_run_attributes (env : FeatEnv) (v2e : Nat → List Nat) (ob : Bool) (fv0 fe0 : Option BoolMap) :
-    (run env v2e ob fv0 fe0).2.2.2.2.2 =
+theorem source_run_attributes (env : FeatEnv) (v2e : Nat → List Nat) (ob : Bool) (fv0 fe0 : Option BoolMap) (fc : Bool) (ce : CornerEnv) (tp : Rat) (od : Nat) (c0 cm : IntMap) :
+    (run env v2e ob fv0 fe0 fc ce tp od c0 cm).2.2.2.2.2.1 =
       addBorderToFeatures env ob (addSharpAnglesToFeatures env ob (addHardEdgesToFeatures env ob [])) ∧
-    ∀ v, v ∈ (run env v2e ob fv0 fe0).2.2.2.2.1 ↔ v ∈ (run env v2e ob fv0 fe0).1 :=
-  ⟨run_featE env v2e ob fv0 fe0, run_featV env v2e ob fv0 fe0⟩
+    ∀ v, v ∈ (run env v2e ob fv0 fe0 fc ce tp od c0 cm).2.2.2.2.1 ↔ v ∈ (run env v2e ob fv0 fe0 fc ce tp od c0 cm).1 :=
+  ⟨run_featE env v2e ob fv0 fe0 fc ce tp od c0 cm, run_featV env v2e ob fv0 fe0 fc ce tp od c0 cm⟩
 
+/-- **corner flags of the translated `run`**: with `flag_corners` set, every feature vertex holds ±1 (sign of its angle sum) when
+`|angle sum| < 2π/corner_order` and `round(angle sum · corner_order / 2π)` otherwise; with `flag_corners` unset `self.corners` is left
+as it was (`2π` = any positive rational) -/
+theorem source_run_corner_flags (env : FeatEnv) (v2e : Nat → List Nat) (ob : Bool) (fv0 fe0 : Option BoolMap) (fc : Bool) (ce : CornerEnv)
+    (tp : Rat) (od : Nat) (c0 cm : IntMap) (hT : 0 < tp) (ho : 0 < od) :
+    (fc = false → (run env v2e ob fv0 fe0 fc ce tp od c0 cm).2.2.2.2.2.2 = c0) ∧
+    (fc = true → ∀ v ∈ (run env v2e ob fv0 fe0 fc ce tp od c0 cm).1,
+      intGet (run env v2e ob fv0 fe0 fc ce tp od c0 cm).2.2.2.2.2.2 v =
+        if ratAbs (angleSum ce v) < tp / (od : Rat) then (if 0 ≤ angleSum ce v then 1 else -1)
+        else roundHalfEven (angleSum ce v * (od : Rat) / tp)) := by
+  rw [run_corners]
+  constructor
+  · intro h; simp [h]
+  · intro h v hv
+    simp only [h, if_true]
+    exact (source_corner_flagging_exact ce tp od _ cm hT ho v).1 hv
+
+def demoCorners : CornerEnv := { vertexToFaces := fun _ => [0], cornerInFace := fun v _ => v, angle := fun c => if c % 2 = 0 then 11/7 else 1/10 }
 /-! non-vacuity / sensitivity: on the hinge data of `srcDemo`, with stale attributes and whatever containers before -/
-example : (run (demoEnv srcDemo) (fun v => [v / 2]) false (some [7, 9]) (some [3])).1 = [4, 5, 2, 3, 0, 1] ∧
-    (run (demoEnv srcDemo) (fun v => [v / 2]) false (some [7, 9]) (some [3])).2.1 = [2, 1, 0] ∧
-    (run (demoEnv srcDemo) (fun v => [v / 2]) false (some [7, 9]) (some [3])).2.2.1 = [(1, 1), (0, 1), (3, 1), (2, 1), (5, 1), (4, 1)] ∧
-    (run (demoEnv srcDemo) (fun v => [v / 2]) false (some [7, 9]) (some [3])).2.2.2.2.1 = [4, 5, 2, 3, 0, 1] := by decide +kernel
+example : (run (demoEnv srcDemo) (fun v => [v / 2]) false (some [7, 9]) (some [3]) true demoCorners (44/7) 4 [(9, 9)] []).1 = [4, 5, 2, 3, 0, 1] ∧
+    (run (demoEnv srcDemo) (fun v => [v / 2]) false (some [7, 9]) (some [3]) true demoCorners (44/7) 4 [(9, 9)] []).2.1 = [2, 1, 0] ∧
+    (run (demoEnv srcDemo) (fun v => [v / 2]) false (some [7, 9]) (some [3]) true demoCorners (44/7) 4 [(9, 9)] []).2.2.1 = [(1, 1), (0, 1), (3, 1), (2, 1), (5, 1), (4, 1)] ∧
+    (run (demoEnv srcDemo) (fun v => [v / 2]) false (some [7, 9]) (some [3]) true demoCorners (44/7) 4 [(9, 9)] []).2.2.2.2.1 = [4, 5, 2, 3, 0, 1] ∧
+    (run (demoEnv srcDemo) (fun v => [v / 2]) false (some [7, 9]) (some [3]) true demoCorners (44/7) 4 [(9, 9)] []).2.2.2.2.2.2 =
+      [(1, 1), (0, 1), (3, 1), (2, 1), (5, 1), (4, 1)] ∧
+    (run (demoEnv srcDemo) (fun v => [v / 2]) false (some [7, 9]) (some [3]) false demoCorners (44/7) 4 [(9, 9)] []).2.2.2.2.2.2 = [(9, 9)] := by decide +kernel
 
 end run
 
